@@ -73,7 +73,8 @@ func Run(c *core.Ctx) error {
 		sort.Strings(unl[tn])
 	}
 	c.SetExtra("lock_table", map[string]interface{}{"types": len(tab.Types), "methods": nm, "steps": ns,
-		"public_methods_that_never_take_the_instance_lock": unl})
+		"public_methods_that_never_take_the_instance_lock": unl,
+		"lock_carrying_helper_types_that_are_not_collections_of_the_property": tab.Skipped})
 	c.Rule = "a footprint / watchdog case counts per (type, public method, variant); a concurrent history counts when at least two goroutines ran and at least one call mutated the collection"
 	for tn := range tab.Types {
 		if ctors[tn] == nil {
